@@ -500,6 +500,8 @@ class Engine:
             if c.count is not None:
                 g = self.spec(c.count, st)
                 self.oblige(st, st.env["nyield"] == g, "count", "post", line, c.count.text, c.count.props)
+            self.canary_points.append((f"{self.short}/canary/generator-end@{line}", list(st.pc)))
+            self.prove_all(st.clone(), c.count_facts, "count-fact", "post", line)
             return
         st = st.clone()
         st.env["result"] = val
@@ -611,7 +613,21 @@ class Engine:
         node = ast.parse(text.strip()).body[0]
         if not isinstance(node, ast.Assign) or not isinstance(node.targets[0], ast.Name):
             raise EngineError(f"ghost statement must be 'name = expr': {text}")
-        st.env[node.targets[0].id] = self.ev(node.value, st, True)
+        self.ghost_assign(node.targets[0].id, self.ev(node.value, st, True), st)
+
+    def exported_generator_ghosts(self, c=None):
+        """ghost variables a generator's yield clauses / count facts mention: the caller sees ONE existential witness for each, which is
+        sound only if the variable has the same value at every yield - it may be assigned only before the first yield"""
+        c = c or self.c
+        import re as _re
+        text = " ".join([x.text for x in c.yields] + [x.text for x in c.count_facts] + ([c.count.text] if c.count else []))
+        return [g for g in c.ghost_vars if _re.search(r"\b%s\b" % _re.escape(g), text)]
+
+    def ghost_assign(self, name, val, st):
+        if self.is_generator and name in self.exported_generator_ghosts():
+            self.oblige(st, st.env["nyield"] == 0, f"ghost-constant-{name}-set-before-the-first-yield", "hint", None,
+                        f"{name} is exported to callers as one value: assigned only while nyield == 0")
+        st.env[name] = val
 
     def exec_stmt(self, s, st, plan=()):
         """execute one statement; an expression that needs a case distinction (Split) makes the statement re-run once per case.
@@ -951,9 +967,15 @@ class Engine:
     def st_For(self, s, st):
         lab, spec = self.loop_spec(s)
         if spec.iter_name:
-            itv = self.ev(s.iter, st, False)
+            enum = isinstance(s.iter, ast.Call) and ast.unparse(s.iter.func) == "enumerate" and len(s.iter.args) == 1
+            src = s.iter.args[0] if enum else s.iter
+            itv = self.ev(src, st, False)
             st.env[spec.iter_name] = itv
-            desc = self.iter_value(itv, st, s.iter)
+            desc = self.iter_value(itv, st, src)
+            if enum:
+                desc = EnumIter(desc)
+            for gname, gtext in spec.iter_ghost.items():
+                self.ghost_assign(gname, self.spec(Clause(gtext), st), st)
         else:
             desc = self.iterable(s.iter, st)
         gseq = getattr(desc, "ghost_seq", None) or getattr(getattr(desc, "inner", None), "ghost_seq", None)
@@ -1902,6 +1924,15 @@ class Engine:
             # the string f"<literal parts with {} for the integer hole>" as a function of the integer (see ex_JoinedStr)
             key = e.args[0].value
             return z3.Function("fstr:" + key, I, R)(self.ev(e.args[1], st, True))
+        if name == "last_perm":
+            # the permutation of the most recent sorted(...) (models/pylists.sorted_list) as an integer array
+            pq = getattr(self, "last_perm", None)
+            if pq is None:
+                raise EngineError("last_perm(): no sorted(...) was evaluated")
+            arr = V.fresh("perm_arr", z3.ArraySort(I, I))
+            ii = V.fresh("i", I)
+            st.assume(z3.ForAll(ii, arr[ii] == pq[0](ii), patterns=[arr[ii]]))
+            return arr
         if name == "ghost":
             gname = e.args[0].value if isinstance(e.args[0], ast.Constant) else e.args[0].id
             gr = st.env.get("$ghost_returns", {})
@@ -2275,7 +2306,20 @@ class Engine:
             self.pending_raises.append((exc, rst))
             if rs.get("iff") is not None:
                 st.assume(z3.Not(sub.spec(as_clause(rs["iff"]), cst)))
-        count = sub.spec(callee.count, cst)
+        for gname in self.exported_generator_ghosts(callee):
+            gv = V.fresh(gname, sort_of(callee.ghost_vars[gname][0]))
+            cst.env[gname] = gv
+            st.env["$ghost_returns"] = {**st.env.get("$ghost_returns", {}), gname: gv}
+        if callee.count is not None:
+            count = sub.spec(callee.count, cst)
+        else:       # data-dependent number of yields: an unknown count constrained by the callee's proven count facts
+            count = V.fresh("nyields", I)
+            cst_c = State(env=dict(cst.env), pc=st.pc, heap=st.heap, old=cst.old, nxt=st.nxt)
+            cst_c.oldheap = cst.oldheap
+            cst_c.env["nyield"] = count
+            st.assume(count >= 0)
+            for cf in callee.count_facts:
+                st.assume(sub.spec(cf, cst_c))
         tmpl = self.make_param("yield_tmpl", callee.returns, st)
         # ghost sequence of yielded values: one lifted family indexed by the yield number
         seq = Lifted(tmpl, [z3.Const(V.fresh_name("Y"), z3.ArraySort(I, c.sort())) for c in V.comps(tmpl)])
